@@ -149,7 +149,13 @@ func sendOne(s endpoint, raw bool, hdr []byte, body []byte, held bool) error {
 		_ = s.SetOption(mangos.OptionSendDeadline, 3*time.Second)
 		return s.Send(body)
 	}
-	m := mangos.NewMessage(len(body))
+	// a raw application builds its message in place: it may ask for less room than it ends up using (the body then outgrows
+	// its size class by append) and it appends its header to the message's own header room
+	n := len(body)
+	if raw && hdr != nil && n <= 300 {
+		n = 0
+	}
+	m := mangos.NewMessage(n)
 	m.Body = append(m.Body, body...)
 	if raw && hdr != nil {
 		m.Header = append(m.Header, hdr...)
